@@ -4,6 +4,7 @@
 #include "../ref/regex.hpp"
 #include "../ref/lr1.hpp"
 #include "jsonw.hpp"
+#include "dfa_dump.hpp"
 #include <chrono>
 #include <csignal>
 #include <cstring>
@@ -661,6 +662,27 @@ static bool run_one() {
     return false;
 }
 
+// conformance support (DESIGN 1.6): list the explored patterns / dump the run-time built automata in canonical text form
+static void run_patterns(bool dump) {
+    g_sm = new BigDfa();
+    auto pools = make_pools();
+    std::set<std::string> seen;
+    for (size_t pi = 0; pi < pools.size(); ++pi) {
+        if (cfg.pool > 0 && (int)pi >= cfg.pool) break;
+        for (int k = 1; k <= cfg.K; ++k) {
+            rx::AstPool ap;
+            enum_asts(ap, (int)pools[pi].atoms.size(), k, true, [&](int root) {
+                std::string pat = rx::print(ap, pools[pi].atoms, root);
+                if (!seen.insert(pat).second) return;
+                if (!dump) { std::printf("%s\n", pat.c_str()); return; }
+                Built b = build_pattern(*g_sm, buffers::string_view_buffer(std::string_view(pat)));
+                if (!b.ok) { std::printf("### %s\nREFUSED\n", pat.c_str()); return; }
+                dump_dfa(pat.c_str(), *g_sm, b.predicted);
+            });
+        }
+    }
+}
+
 static void crash_handler(int sig) {
     char buf[1024]; int n = std::snprintf(buf, sizeof buf, "CRASH signal=%d phase=%s subject=%s input=%s\n", sig, cur_phase, vis(cur_subject).c_str(), vis(cur_input).c_str());
     if (write(2, buf, n) < 0) {}
@@ -696,6 +718,8 @@ int main(int argc, char** argv) {
     else if (cfg.mode == "c04") run_c04();
     else if (cfg.mode == "c10") run_c10();
     else if (cfg.mode == "c17") run_c17();
+    else if (cfg.mode == "list-patterns") { run_patterns(false); return 0; }
+    else if (cfg.mode == "dump-patterns") { run_patterns(true); return 0; }
     else if (cfg.mode == "c03-one") { bool v = run_one(); return v ? 1 : 0; }
     else { std::fprintf(stderr, "need --mode c03|c04|c10|c17\n"); return 2; }
     write_out();
